@@ -1,7 +1,6 @@
 package main
 
 import (
-	"context"
 	"encoding/base64"
 	"errors"
 	"fmt"
@@ -154,13 +153,6 @@ func nodesRequest(nodes []searchFn, q query, cursor string, count uint16) (pg pa
 		pg.Cursor = base64.StdEncoding.EncodeToString(newCursor)
 	}
 	return pg, nil
-}
-
-// engineRequest is localRequest whose error classification knows about "recalculate cursor".
-func engineStorage(search func(ctx context.Context, ofs []objectcore.SearchFilter, attrs []string, cur *objectcore.SearchCursor, count uint16) ([]client.SearchResultItem, []byte, error)) searchFn {
-	return func(ofs []objectcore.SearchFilter, attrs []string, cur *objectcore.SearchCursor, count uint16) ([]client.SearchResultItem, []byte, error) {
-		return search(context.Background(), ofs, attrs, cur, count)
-	}
 }
 
 type requester func(q query, cursor string, count uint16) (page, *reqError)
